@@ -1007,6 +1007,10 @@ func (rl *Shell) viYankWholeLine() {
 		epos--
 	}
 
+	if epos < bpos {
+		epos = bpos
+	}
+
 	// Pass the buffer to register.
 	buffer := (*rl.line)[bpos:epos]
 	rl.Buffers.Write(buffer...)
